@@ -131,6 +131,9 @@ def witness(prop, clause, tier, budget=None):
                                     CARGO_NET_OFFLINE='true', VERIF_REPO=REPO))
         if b.returncode != 0:
             return dict(status='witness-build-failed', detail=b.stderr[-1500:])
+        if not budget and not os.environ.get('VERIF_WITNESS_BUDGET') and prop in SCENARIOS:
+            # fallback / replay search: the thorough budget of the always-on leg (x10 in the thorough tier)
+            budget = SCENARIOS[prop][2] * (1 if tier == 'quick' else 10)
         budget = str(budget) if budget else (os.environ.get('VERIF_WITNESS_BUDGET') or ('20000' if tier == 'quick' else '200000'))
         p = subprocess.run([exe, prop, budget], capture_output=True, text=True, timeout=900)
         out = p.stdout.strip().split('\n')[-1] if p.stdout.strip() else ''
@@ -414,6 +417,8 @@ def main():
                 undecided.append('%s: function %s is gone from the source; its obligations are moot, what it did is now checked only as part of its callers' % (u, lf['path']))
         for fid, why in (getattr(r, 'demoted', None) or {}).items():
             mine = [cid for cid, c in r.g.clauses.items() if c['fn'] == fid and prop in c['tags']]
+            if prop == 'C03' and not mine:
+                mine = ['%s.safety' % fid]   # bounds / overflow / unwrap / termination of the body were not checked
             if mine:
                 undecided.append('%s: tool/compile error: the body of %s is outside the verifier\'s subset on this tree, so its obligations %s could not be checked (%s)'
                                  % (u, fid, sorted(mine)[:6], why[:300]))
